@@ -76,7 +76,8 @@ impl FieldAttributesInfo {
                     "The `default` field attribute is defined twice.",
                 ));
             }
-            self.default = Some(default)
+            self.default = Some(default);
+            self.default_span = other.default_span;
         }
         if let Some(missing_field_error) = other.missing_field_error {
             if let Some(self_missing_field_error) = &self.missing_field_error {
